@@ -400,7 +400,14 @@ func startedCut(p *Program, rd *ssa.Function, d ssa.CallInstruction) (int, bool)
 			cuts++
 			continue
 		}
+		feas := map[*ssa.BasicBlock]bool{}
+		for _, s := range p.feasibleSuccs(b) {
+			feas[s] = true
+		}
 		for k, s := range b.Succs {
+			if !feas[s] {
+				continue
+			}
 			if isStartedTrueEdge(b, k) {
 				cuts++
 				continue
